@@ -74,7 +74,43 @@ func emit(c *kit.Ctx, w World, cell string) {
 	emitB(c, w, cell, "")
 }
 
+// countHistory buckets the nomination histories: was a node nominated again while its previous window was
+// still running, and does only that later nomination cover the instant of the candidate computation?
+func countHistory(c *kit.Ctx, w World) {
+	win := max(2*w.BM, 10*sec)
+	now := w.T0
+	until := map[string]int64{}
+	first := map[string]int64{} // what the window would be if re-nomination did not extend it
+	re := map[string]bool{}
+	for _, o := range w.Ops {
+		switch o.Kind {
+		case "tick":
+			now += o.Dt
+		case "nominate":
+			if u, ok := until[o.ID]; ok && now < u {
+				re[o.ID] = true
+			} else {
+				first[o.ID] = now + win
+			}
+			until[o.ID] = now + win
+		}
+	}
+	for _, n := range w.Nodes {
+		if !re[n.ID] {
+			continue
+		}
+		c.Count("history:renominated-inside-window")
+		switch {
+		case now < until[n.ID] && now >= first[n.ID]:
+			c.Count("history:renominated-inside-window:only-extension-protects")
+		case now >= until[n.ID]:
+			c.Count("history:renominated-inside-window:expired")
+		}
+	}
+}
+
 func emitB(c *kit.Ctx, w World, cell, baseName string) {
+	countHistory(c, w)
 	o := runWorld(c, &w)
 	literalKeys(c, &w, o)
 	k := ""
@@ -177,6 +213,21 @@ func main() {
 			}
 			if r.Chance(1, 4) {
 				n.Claim.Drifted = kit.Pick(r, []*string{nil, sp("False"), sp("True")})
+			}
+			if r.Chance(1, 4) {
+				// random nomination history: 2-4 nominations with gaps around / below the window, the last
+				// one between 0 and 1.5 windows before the candidate computation; sometimes refreshed in between
+				win := g.window()
+				t := g.F - int64(r.Range(0, int(win*3/2/1_000_000)))*1_000_000 - int64(r.Range(-1, 1))
+				for k := r.Range(2, 4); k > 0; k-- {
+					g.at(t, "nominate", n.ID)
+					if r.Chance(1, 4) {
+						g.at(t, "refresh", n.ID)
+					}
+					t -= kit.Pick(r, []int64{win / 4, win / 2, win - 1, win, win + 1, int64(r.Range(1, int(win*6/5/1_000_000))) * 1_000_000})
+				}
+				note += n.ID + ":nomination-history "
+				c.Count("pert:nominated")
 			}
 			k := kit.Pick(r, []int{0, 1, 1, 1, 2, 2, 3})
 			for ; k > 0; k-- {
